@@ -384,7 +384,12 @@ func (r *Realm) parseLines(name string, lines []string) (err error) {
 		case "default_domain":
 			r.DefaultDomain = v
 		case "kdc":
-			if !strings.Contains(v, ":") {
+			hasPort := strings.Contains(v, ":")
+			if strings.HasPrefix(v, "[") {
+				// IPv6 address enclosed in square brackets: only a colon after the closing bracket separates a port
+				hasPort = strings.Contains(v, "]:")
+			}
+			if !hasPort {
 				// No port number specified default to 88
 				if strings.HasSuffix(v, `*`) {
 					v = strings.TrimSpace(strings.TrimSuffix(v, `*`)) + ":88*"
@@ -402,8 +407,12 @@ func (r *Realm) parseLines(name string, lines []string) (err error) {
 	//default for Kpasswd_server = admin_server:464
 	if len(r.KPasswdServer) < 1 {
 		for _, a := range r.AdminServer {
-			s := strings.Split(a, ":")
-			r.KPasswdServer = append(r.KPasswdServer, s[0]+":464")
+			h, _, err := net.SplitHostPort(a)
+			if err != nil {
+				// no port specified
+				h = strings.TrimSuffix(strings.TrimPrefix(a, "["), "]")
+			}
+			r.KPasswdServer = append(r.KPasswdServer, net.JoinHostPort(h, "464"))
 		}
 	}
 	return
